@@ -1,12 +1,13 @@
 (* Assembly of the C05 obligations (the part that is logic) into the statement of props/C05.v. *)
 From Coq Require Import Reals List Arith Bool.
 From Coquelicot Require Import Coquelicot.
-From GS Require Import ExprR LinAlg Chi2 Wrap GraphModel GNSpec LinearSpec OptLoopR C01_SE3 C01_SE2 C09_SE2 C10_SE3_boxplus C05_main C05_chi2.
+From GS Require Import ExprR LinAlg Chi2 Wrap GraphModel GNSpec LinearSpec OptLoopR C01_SE3 C01_SE2 C09_SE2 C09_SE3 C10_SE3_boxplus C05_main C05_chi2
+  C03_accumulate C07_glue C07_inst C07_whole C05_grad.
 Import ListNotations.
 Open Scope R_scope.
 
 Lemma C05_all :
-  (* the chi2 of an edge along a boxplus perturbation of a vertex is differentiable and its derivative is built from the error and
+ (  (* the chi2 of an edge along a boxplus perturbation of a vertex is differentiable and its derivative is built from the error and
      the code's Jacobian: (J u)^T Omega e + e^T Omega (J u)  (generic lemmas quad_derive / quad_derive_curve + C01), for the SE(3) and
      SE(2) edge kinds and both vertices; SE(2): base pose in range (every constructed pose, C11), odometry off the jump set of the error *)
   (forall om p1 p2 z u, length p1 = 7%nat -> length p2 = 7%nat -> length z = 7%nat -> length u = 6%nat ->
@@ -49,8 +50,23 @@ Lemma C05_all :
   (* the stopping rule never reports convergence on an increase ... *)
   (forall tol prev c, documented_stop tol prev c -> c <= prev) /\
   (* ... but "final chi2 <= initial chi2" is NOT a consequence of the stopping rule alone *)
-  (exists c0 c1 c2 tol, documented_stop tol c1 c2 /\ ~ documented_stop tol c0 c1 /\ c0 < c2).
+  (exists c0 c1 c2 tol, documented_stop tol c1 c2 /\ ~ documented_stop tol c0 c1 /\ c0 < c2)) /\
+  (* ---- THE GRADIENT OF WHOLE SE(3) GRAPHS (proofs/C05_grad.v).  A graph over one pose per vertex position ([poses]; 7 numbers for a pose, 3 for a
+          landmark) with odometry and landmark edges that look their vertices up ([descr poses g]); [rec3] builds the lib/GraphModel.v record from what
+          the regenerated error / Jacobian programs return.  For every such graph, every free vertex k and every tangent coordinate i, chi^2 of the
+          graph is differentiable along  pose_k [+] t e_i  (the update the optimizer applies) and its derivative at 0 is TWICE the entry of the
+          gradient vector of the normal equations (spec_b = what graph.py assembles, theorem C03).  chi^2 of the graph is spec_chi2 of the records. ---- *)
+  (forall vs lm poses gs k i,
+     length poses = length vs -> List.Forall (okg vs lm poses) gs -> (k < length vs)%nat -> (i < dim_at vs k)%nat -> fixed_at vs k = false ->
+     is_derive (fun t => chi2_graph (upd poses k (bp3 (lm k) (nth k poses []) (vscale t (basis (dim_at vs k) i)))) gs) 0
+               (2 * spec_b vs (map rec3 (map (descr poses) gs)) (gi vs k + i))) /\
+  (forall vs lm poses gs, List.Forall (okg vs lm poses) gs -> chi2_graph poses gs = spec_chi2 (map rec3 (map (descr poses) gs))) /\
+  (* the premises are met by a concrete three-vertex graph (two poses, the first fixed, one landmark; one odometry edge, two observations) *)
+  (length ex_poses = length ex_vs /\ List.Forall (okg ex_vs ex_lm ex_poses) ex_gs /\
+   (1 < length ex_vs)%nat /\ (4 < dim_at ex_vs 1)%nat /\ fixed_at ex_vs 1 = false /\
+   (2 < length ex_vs)%nat /\ (2 < dim_at ex_vs 2)%nat /\ fixed_at ex_vs 2 = false).
 Proof.
+  split; [|split; [exact C05_gradient_SE3 | split; [exact chi2_graph_is_spec_chi2 | exact C05_gradient_premises]]].
   repeat match goal with |- _ /\ _ => split end.
   - intros om p1 p2 z u H1 H2 H3 Hu. cbv zeta. split; [exact (C05_chi2_derivative_odo3 om p1 p2 z u H1 H2 H3 Hu) | exact (C05_chi2_odo3_v1 om p1 p2 z u H1 H2 H3 Hu)].
   - exact C05_chi2_lmk3_v0.
